@@ -190,6 +190,7 @@ OVERDUE = ("repid.data._parameters.Parameters.is_overdue", "repid.data._buckets.
 
 
 def overdue_siblings(ctx: Ctx, rule: str) -> None:
+    now_forms: dict[str, list] = {}
     n = 0
     for q in OVERDUE:
         f = ctx.func(q)
@@ -234,12 +235,25 @@ def overdue_siblings(ctx: Ctx, rule: str) -> None:
             is_sum = isinstance(rr, ast.BinOp) and isinstance(rr.op, ast.Add) and {dotted(rr.left), dotted(rr.right)} == {"self.timestamp", "self.ttl"}
             ok = isinstance(op, ast.Gt) and is_now and is_sum and bool(tz)
             why = f"{unparse(c)}"
+            if is_now:
+                now_forms.setdefault(unparse(l), []).append(f)
         else:
             why = str([unparse(x.ast.value) for x in got])
         ctx.check(ok, rule, f, f"{f.short()}: overdue iff now > timestamp + ttl", "strict comparison against timestamp + ttl",
                   f"{f.short()} decides expiry with `{why}` instead of `now > self.timestamp + self.ttl` (boundary or operands changed: a live message is dropped "
                   "or an expired one is executed)", instance=f"{f.short()}: comparison")
     ctx.floor(rule, n, 4, "is_overdue siblings")
+    # the siblings must read the clock the same way: an aware timestamp compared with a naive now() raises TypeError in one place and works in the others
+    if len(now_forms) > 1:
+        major = max(now_forms, key=lambda k: len(now_forms[k]))
+        for form, fs in now_forms.items():
+            if form != major:
+                for f_ in fs:
+                    ctx.fail(rule, f_, f"clock read as {form} (siblings: {major})",
+                             f"{f_.short()} reads the current time as `{form}` while the other expiry tests use `{major}`: with timezone-aware timestamps one of the forms raises "
+                             "TypeError (naive vs aware) - 'expiry is decided alike for messages, jobs and buckets' no longer holds", instance=f"{f_.short()}: clock form")
+    else:
+        ctx.ok(rule, "all expiry tests read the clock the same way", f"{list(now_forms)}")
 
 
 # ----------------------------------------------------------------------------- PERIOD
